@@ -1348,3 +1348,95 @@ func returnsStore(fn *ssa.Function) bool {
 	t := rs.At(0).Type().String()
 	return strings.HasSuffix(t, "store/prefix.Store") || strings.HasSuffix(t, "types.KVStore") || strings.HasSuffix(t, "store/types.KVStore")
 }
+
+// ---------------------------------------------------------------------------
+// C12: "released by a reward block" presupposes that a reward block steps the gauges at all. The per-gauge contract of the
+// release callback says what one step does; that every reward walk reaches the step is a control-flow fact: the call
+// chain ManageRewards -> rewardAllProviders -> pullTokensFromGauges must lie on every path to a return.
+
+func (w *Workspace) structuralC12() *FuncResult {
+	res := &FuncResult{Key: "x/storage/keeper: every reward walk steps the gauges"}
+	kp := w.ssaPkgs[modPath+"/x/storage/keeper"]
+	if kp == nil {
+		res.Obls = append(res.Obls, structural("x/storage/keeper", "package_loaded", []string{"C12"}, false, "package is not loaded"))
+		return res
+	}
+	find := func(name string) *ssa.Function {
+		for k, fn := range w.funcs {
+			if strings.HasPrefix(k, modPath+"/x/storage/keeper::") && fn.Parent() == nil && fn.Name() == name {
+				return fn
+			}
+		}
+		return nil
+	}
+	chain := [][2]string{{"ManageRewards", "rewardAllProviders"}, {"rewardAllProviders", "pullTokensFromGauges"}}
+	for _, c := range chain {
+		fn := find(c[0])
+		name := "x/storage/keeper.(Keeper)." + c[0]
+		if fn == nil {
+			res.Obls = append(res.Obls, structural(name, "steps_the_gauges_on_every_path", []string{"C12"}, false, "function "+c[0]+" not found: the reward walk was restructured, the rule has nothing to check"))
+			continue
+		}
+		// blocks from which the callee is (transitively, within the package) called
+		calls := func(b *ssa.BasicBlock) bool {
+			for _, ins := range b.Instrs {
+				if ci, ok := ins.(ssa.CallInstruction); ok {
+					if callee := ci.Common().StaticCallee(); callee != nil && w.reachesByName(callee, c[1], 0) {
+						return true
+					}
+				}
+			}
+			return false
+		}
+		var callBlocks []*ssa.BasicBlock
+		for _, b := range fn.Blocks {
+			if calls(b) {
+				callBlocks = append(callBlocks, b)
+			}
+		}
+		ok, why := len(callBlocks) > 0, fmt.Sprintf("%s never calls %s", c[0], c[1])
+		if ok {
+			why = fmt.Sprintf("every return of %s is preceded by the call of %s", c[0], c[1])
+			for _, b := range fn.Blocks {
+				if len(b.Instrs) == 0 {
+					continue
+				}
+				if _, isRet := b.Instrs[len(b.Instrs)-1].(*ssa.Return); !isRet {
+					continue
+				}
+				dominated := false
+				for _, cb := range callBlocks {
+					if cb.Dominates(b) {
+						dominated = true
+					}
+				}
+				if !dominated {
+					ok = false
+					why = fmt.Sprintf("%s can return (block %d, %s) without having called %s: on that path the payment gauges are not stepped in this reward block, cumulative release falls behind the elapsed fraction", c[0], b.Index, w.prog.Fset.Position(b.Instrs[len(b.Instrs)-1].Pos()), c[1])
+				}
+			}
+		}
+		res.Obls = append(res.Obls, structural(name, "steps_the_gauges_on_every_path", []string{"C12"}, ok, why))
+	}
+	return res
+}
+
+// reachesByName: fn is, or (within the repository, a few calls deep) calls, a function of that name
+func (w *Workspace) reachesByName(fn *ssa.Function, name string, depth int) bool {
+	if fn.Name() == name {
+		return true
+	}
+	if depth > 3 || fn.Pkg == nil || !isRepoPkg(fn.Pkg.Pkg) {
+		return false
+	}
+	for _, b := range fn.Blocks {
+		for _, ins := range b.Instrs {
+			if ci, ok := ins.(ssa.CallInstruction); ok {
+				if callee := ci.Common().StaticCallee(); callee != nil && callee != fn && w.reachesByName(callee, name, depth+1) {
+					return true
+				}
+			}
+		}
+	}
+	return false
+}
